@@ -222,6 +222,8 @@ def expected_effects(src):
             if not isinstance(e.value, ast.Tuple):
                 out.append("bounds")
             return
+        if isinstance(e, ast.Call) and isinstance(e.func, ast.Attribute) and e.func.attr == "unwrap" and not e.args:
+            ev(e.func.value); out.append("bounds"); return        # Option.unwrap panics on nothing
         if isinstance(e, ast.Call) and isinstance(e.func, ast.Name):
             f = e.func.id
             if f == "result":
